@@ -57,6 +57,7 @@ func runC15(c *Ctx) {
 		}
 		var mu sync.Mutex
 		var reads []read
+		ngets := 0
 		var problems []string
 		var wg sync.WaitGroup
 		stop := make(chan struct{})
@@ -65,6 +66,7 @@ func runC15(c *Ctx) {
 			go func(r int) {
 				defer wg.Done()
 				last := -1
+				lastGet := map[int]int{}
 				var held []metav1.Object
 				var heldIDs []int
 				for n := 0; ; n++ {
@@ -131,10 +133,43 @@ func runC15(c *Ctx) {
 						reads = append(reads, read{lo, hi, ids})
 					}
 					mu.Unlock()
-					if n%7 == 0 {
-						if g, err := actor.Reader().Get(Str(1), Str(2)); err == nil && g != nil && g.GetName() != Str(2) {
+					if n%3 == 0 {
+						// Get() from every reader on a different key: the reply belongs to
+						// the caller's key and to a state inside the call's window
+						k := 1 + (r+n)%5
+						glo := int(completed.Load())
+						g, err := actor.Reader().Get(Str(1), Str(k))
+						ghi := int(started.Load())
+						if err != nil {
+							return
+						}
+						mu.Lock()
+						ngets++
+						if g != nil {
+							var v int
+							fmt.Sscan(g.GetResourceVersion(), &v)
+							switch {
+							case g.GetName() != Str(k) || g.GetNamespace() != Str(1):
+								problems = append(problems, fmt.Sprintf("reader %d: Get(%s/%s) returned %s/%s", r, Str(1), Str(k), g.GetNamespace(), g.GetName()))
+							case v < glo || v > ghi:
+								problems = append(problems, fmt.Sprintf("reader %d: Get of key %d returned state %d, outside its window [%d,%d]", r, k, v, glo, ghi))
+							case v < lastGet[k]:
+								problems = append(problems, fmt.Sprintf("reader %d: Get of key %d went backwards: state %d after %d", r, k, v, lastGet[k]))
+							case k%2 == 1 && v%2 == 0:
+								problems = append(problems, fmt.Sprintf("reader %d: Get of key %d returned state %d, in which that key is filtered out", r, k, v))
+							}
+							lastGet[k] = v
+						} else if glo > 0 {
+							// absent: only a key the even states filter out, with an even state in the window
+							evenInWindow := ghi > glo || glo%2 == 0
+							if k%2 == 0 || !evenInWindow {
+								problems = append(problems, fmt.Sprintf("reader %d: Get of key %d returned nothing although every state in its window [%d,%d] holds it", r, k, glo, ghi))
+							}
+						}
+						mu.Unlock()
+						if a, err := actor.Reader().Get(Str(3), Str(k)); err == nil && a != nil {
 							mu.Lock()
-							problems = append(problems, "Get returned another object")
+							problems = append(problems, fmt.Sprintf("reader %d: Get of an absent key returned %s/%s", r, a.GetNamespace(), a.GetName()))
 							mu.Unlock()
 						}
 					}
@@ -184,6 +219,7 @@ func runC15(c *Ctx) {
 		c.Rep.Evaluations += len(reads)
 		c.Rep.Distinct += len(distinctStates)
 		c.Stat("reads", len(reads))
+		c.Stat("gets", ngets)
 		c.Stat(fmt.Sprintf("readers_%d_rounds", readers), 1)
 		for _, p := range problems {
 			c.Violation("", p, map[string]interface{}{"readers": readers, "round": round})
@@ -306,5 +342,5 @@ func runC15(c *Ctx) {
 			c.Violation("", p, map[string]interface{}{"readers": readers, "round": round, "workload": "updates"})
 		}
 	}
-	c.Rep.Rule = "the real cache goroutine (verif export) in real time, built with the race detector: 1 / 4 / 16 reader goroutines calling List() (and Get()) in a loop against one writer that moves through distinguishable complete states (5 keys all at version i; odd states restricted to 2 keys by a refilter) with sync-by-refilter; each read stamped with the writer's completed-state counter before the call and started-state counter after the return. Oracles: every List() is one complete state (never a mix), within its window (extracted lin_ok), per-reader monotone, a snapshot held across the next read must not change and a scribbled-on one must not show anywhere; a second workload under a label filter of single watch events (updates into and out of the filter, deletes) whose states are the replay of the writer's own returned events; no data race reported by the race detector (a report fails the run). Non-trivial = distinct writer states observed by some reader."
+	c.Rep.Rule = "the real cache goroutine (verif export) in real time, built with the race detector: 1 / 4 / 16 reader goroutines calling List() and Get() (every reader on rotating keys, plus an absent key: the reply is the caller's key, from a state inside the call's window, never backwards) in a loop against one writer that moves through distinguishable complete states (5 keys all at version i; odd states restricted to 2 keys by a refilter) with sync-by-refilter; each read stamped with the writer's completed-state counter before the call and started-state counter after the return. Oracles: every List() is one complete state (never a mix), within its window (extracted lin_ok), per-reader monotone, a snapshot held across the next read must not change and a scribbled-on one must not show anywhere; a second workload under a label filter of single watch events (updates into and out of the filter, deletes) whose states are the replay of the writer's own returned events; no data race reported by the race detector (a report fails the run). Non-trivial = distinct writer states observed by some reader."
 }
